@@ -7,7 +7,7 @@ SO_MODS = ['contracts.so_tick', 'contracts.so_msg', 'contracts.so_apply', 'contr
            'contracts.so_send', 'contracts.so_dump', 'contracts.so_wrapper']
 
 ALL_MODULES = SO_MODS + ['contracts.so_wrapper', 'contracts.journal_units', 'contracts.tcp_units', 'contracts.ser_units', 'contracts.tr_units',
-                         'contracts.bat_lock', 'contracts.bat_containers', 'contracts.node_units', 'contracts.so_version']
+                         'contracts.bat_lock', 'contracts.bat_containers', 'contracts.node_units', 'contracts.so_version', 'contracts.poller_units']
 
 A_RAFT = ('A-RAFT: the local rules proved here (R1-R11 of DESIGN §3.3) imply the cluster-wide statement by the published Raft '
           'argument (log matching, leader completeness, state-machine safety); that composition over several nodes and '
